@@ -28,6 +28,7 @@
 #define DOC_PCACONVERGENCE 1e-10
 
 static long ncases(int tier) { return tier ? 120000 : 6000; }
+static double g_leak[32];
 
 /* n x r matrix with orthonormal columns (all orthogonal to the ones-vector when centre != 0) */
 static void rand_orthonormal_cols(vh_ctx *c, ldm *Q, int centre)
@@ -133,7 +134,7 @@ static size_t compare(vh_ctx *c, const char *clause, const tolset *t, const ldm 
 static void run_case(vh_ctx *c)
 {
   size_t n = (size_t)vh_int(c, 3, 60), p = (size_t)vh_int(c, 2, 25), i, j, k, r, rmax, kmax, npc, nmean, nscale;
-  int shape = (int)vh_int(c, 0, 3), scaling = (int)vh_int(c, -1, 5), attempt, bad_domain, offsets;
+  int shape = (int)vh_int(c, 0, 3), scaling = (int)vh_int(c, -1, 5), attempt, bad_domain, offsets, steep = 0;
   double mag0 = vh_logunif(c, -2.0, 3.0), mag, lo, xmax;
   ldm *U, *V, *Z, *X = NULL, *T = NULL, *A, *EV, *ta, *pa, *tb, *pb;
   ld *s, *loc, *mean, *scale, *ev, *sv, *va, trace, ssq;
@@ -156,6 +157,17 @@ static void run_case(vh_ctx *c)
   for (k = 1; k < r; k++) {
     double q = vh_coin(c, 0.15) ? 0.85 : vh_coin(c, 0.1) ? lo : vh_range(c, lo, 0.85);
     s[k] = s[k - 1] * q;
+  }
+  /* steep spectra (second build session, side PRNG stream): ratios 0.005..0.3, at most 6 components, s_r/s_1 down to 1e-9.  "Ratios <= 0.85"
+     includes them, and a component that carries 1e-14 of the variance is still far above the library's own exhaustion threshold (1e-24 of
+     the sum of squares).  The oracle for this class is the one-sided Jacobi SVD (the cross-product matrix would square the range away). */
+  {
+    vh_ctx cc = *c; cc.s[0] ^= 0xD1B54A32D192ED03ULL; cc.s[2] += 0x51EE9ULL; (void)vh_u64(&cc); (void)vh_u64(&cc);
+    steep = vh_coin(&cc, 0.12);
+    if (steep) {
+      if (r > 6) r = (size_t)vh_int(&cc, 2, 6);
+      for (k = 1; k < r; k++) { double q = pow(10.0, vh_range(&cc, -2.3, -0.5)); s[k] = s[k - 1] * q; if (s[k] < 1e-9L) s[k] = s[k - 1] * 0.3L; }
+    }
   }
   /* offsets: scaling -1 analyses the raw cross-product, so it mostly gets none; level scaling divides by the mean, which must be a valid scale */
   offsets = scaling == -1 ? vh_coin(c, 0.35) : scaling == 5 ? 1 : !vh_coin(c, 0.25);
@@ -191,18 +203,25 @@ static void run_case(vh_ctx *c)
   A = ldm_ata(T); EV = ldm_new(p, p);
   ev = calloc(p + 1, sizeof(ld)); sv = calloc(p + 1, sizeof(ld));
   or_jacobi_eig(A, ev, EV);
+  if (steep) {
+    size_t mn = n < p ? n : p; ldm *Vs = ldm_new(p, mn); ld *svs = calloc(mn + 1, sizeof(ld));
+    or_svd(T, svs, NULL, Vs);
+    for (k = 0; k < p; k++) { ev[k] = k < mn ? svs[k] * svs[k] : 0; if (k < mn) for (j = 0; j < p; j++) LM(EV, j, k) = LM(Vs, j, k); }
+    ldm_free(Vs); free(svs);
+  }
   trace = 0; for (k = 0; k < p; k++) { trace += ev[k]; sv[k] = ev[k] > 0 ? sqrtl(ev[k]) : 0; }
   ssq = ldm_frob(T); ssq *= ssq;
   kmax = 0;
   for (k = 0; k < p && k + 1 < n + (scaling == -1); k++) {
-    if (!(sv[k] >= 1e-3L * sv[0]) || sv[k] == 0) break;
+    if (!(sv[k] >= (steep ? 1e-9L : 1e-3L) * sv[0]) || sv[k] == 0) break;
     if (k + 1 < p && sv[k + 1] > 0.9L * sv[k]) break;
     kmax = k + 1;
   }
   {
     int md = (int)floor(log10(mag));
-    vh_class(c, "n%d-p%d-sc%d-%s-mag1e%d-r%s", n < 6 ? 5 : n < 16 ? 15 : n < 36 ? 35 : 60, p < 4 ? 3 : p < 10 ? 9 : 25, scaling,
-             n > p ? "tall" : n == p ? "square" : "wide", md, r == 1 ? "1" : r == rmax ? "max" : "mid");
+    vh_class(c, "n%d-p%d-sc%d-%s-mag1e%d-r%s%s", n < 6 ? 5 : n < 16 ? 15 : n < 36 ? 35 : 60, p < 4 ? 3 : p < 10 ? 9 : 25, scaling,
+             n > p ? "tall" : n == p ? "square" : "wide", md, r == 1 ? "1" : r == rmax ? "max" : "mid", steep ? "-steep" : "");
+    if (steep) vh_obs("steep_spectrum_cases", 1);
   }
   vh_desc(c, "rows=%zu cols=%zu scaling=%d rank=%zu mag=%.6g (drawn %.6g) offsets=%d s_r/s_1=%.4Lg oracle_kmax=%zu x00=%.17g", n, p, scaling, r, mag, mag0, offsets, s[r - 1], kmax, mx->data[0][0]);
   if (bad_domain) { vh_skip(c, "scaling value in (0,0.06)"); goto out0; }
@@ -242,10 +261,26 @@ static void run_case(vh_ctx *c)
         }
         vtol[k] = a + (k ? prev_unit * prev_unit : 0.0) + 64 * DEPS;
       }
+      if (steep) {
+        /* deflation leakage: component j < k is removed with a loading that is off by theta_j <= sqrt(n tol) rho_j^2 / (1 - rho_j^2) (the stopping
+           rule bounds the last but one error, one more power step contracts it by rho_j^2), which leaves s_j theta_j u_j q' in the residual;
+           u_j is orthogonal to the later left vectors, so the Gram matrix is perturbed by (s_j theta_j)^2 q q': relative eigenvalue change
+           (s_j theta_j / s_k)^2, loading rotation that over (1 - rho_k^2).  Negligible for the moderate spectra, dominant for steep ones. */
+        double leak = 0; size_t jj;
+        for (jj = 0; jj < k; jj++) { double rj = (double)(sv[jj + 1] / sv[jj]), th = sqrt((double)n * DOC_PCACONVERGENCE) * rj * rj / (1.0 - rj * rj), x = (double)(sv[jj] / sv[k]) * th; leak += x * x; }
+        leak *= 4.0;   /* quadratic in the angle: two independent fits (or fit and oracle leakage-free) differ by up to (theta + theta')^2; calibrated: 0.9 of this bound at most in 240 000 thorough cases */
+        vtol[k] += leak; acc += leak / (1.0 - rho * rho); cum[k] = acc;
+        g_leak[k] = leak;
+      }
       flo[k] = 2.0 * DEPS * (xmax > (double)sv[0] ? xmax : (double)sv[0]) * sqrt((double)(n * p)) / ((double)sv[k] * (1.0 - rho));
       prev_unit = unit;
       va[k] = 100 * ev[k] / trace;
     }
+  }
+  if (steep) {   /* components whose leakage bound exceeds 4e-3 are not judged (the criterion implies next to nothing for them) */
+    size_t kk; for (kk = 0; kk < npc; kk++) if (g_leak[kk] > 4e-3) { vh_obs("steep_components_not_judged_for_leakage", (double)(npc - kk)); npc = kk; break; }
+    if (npc == 0) { vh_skip(c, "steep spectrum: no component with a meaningful bound"); free(cum); free(vtol); free(flo); free(vb); free(va); goto out0; }
+    vh_hist("steep_log10_smallest_judged_s_over_s1", (long)floor(log10((double)(sv[npc - 1] / sv[0]))));
   }
   ts.n = n; ts.p = p; ts.npc = npc; ts.sv = sv; ts.cum = cum; ts.vtol = vtol; ts.floor_ = flo;
 
